@@ -1,8 +1,9 @@
 /-
 Secondary tie for C16: what `harness/pyfn2lean.py` GENERATES from the current text of src/ibldsp/voltage.py
-(`saturation`, as the sequence of its array-level calls with their integer parameters) and src/spikeglx.py
+(`saturation`, as the sequence of its array-level calls with their integer parameters;
+`decompress_destripe_cbin.my_function`, as the sequence of its `saturation` calls with the batch bounds) and src/spikeglx.py
 (`Reader.range_volts`, the NP2 branch of `_get_max_int_from_meta`) equals the hand model
-(`Model/SaturationBatch.lean`: `steps`, `rangeVolts`, `fullScaleInt`), for all arguments.
+(`Model/SaturationBatch.lean`: `steps`, `workerWindows` / `schedule`, `rangeVolts`, `fullScaleInt`), for all arguments.
 
 The proofs unfold whatever text was generated and normalise it (`simp` evaluates the constant arithmetic, e.g.
 `Int.tdiv (49 * 1000000) 50`), so a re-spelling of a constant (`0.980`, `98e-2`) still proves, while a different
@@ -28,6 +29,81 @@ theorem factor_eq_generated :
     factorPpm = Int.tdiv ((Generated.SAT_FACTOR.1 : Int) * 1000000) (Generated.SAT_FACTOR.2 : Int) := by
   unfold factorPpm Generated.SAT_FACTOR
   decide
+
+/-! ### the batches on which `decompress_destripe_cbin.my_function` calls `saturation` -/
+
+/-- the event of one call on the batch `[first_s, last_s)` -/
+def ev (w : Nat × Nat) : String × List Int := ("sat", [(w.1 : Int), (w.2 : Int)])
+
+theorem ceilDiv_nat (m d : Nat) (hd : 0 < d) : pyCeilDiv (m : Int) (d : Int) = (((m + d - 1) / d : Nat) : Int) := by
+  unfold pyCeilDiv
+  rw [Int.fdiv_eq_ediv_of_nonneg _ (by omega)]
+  have h1 := Nat.div_add_mod (m + d - 1) d
+  have h2 := Nat.mod_lt (m + d - 1) hd
+  generalize (m + d - 1) / d = q at *
+  generalize (m + d - 1) % d = r at *
+  have hq : (d : Int) * (q : Int) + (r : Int) = (m : Int) + (d : Int) - 1 := by
+    have : ((d * q + r : Nat) : Int) = ((m + d - 1 : Nat) : Int) := by rw [h1]
+    push_cast at this; omega
+  have : (-(m : Int)) / (d : Int) = -(q : Int) ∧ (-(m : Int)) % (d : Int) = (d : Int) - 1 - r := by
+    rw [Int.ediv_emod_unique (by omega)]
+    refine ⟨?_, by omega, by omega⟩
+    rw [Int.mul_neg]; omega
+  rw [this.1]; omega
+
+/-- the `while True` loop of the source, from any `first_s`, any `max_s`, any fuel: the calls are the model's batches -/
+theorem loop_eq (ns N T mx : Nat) (hT : 2 * T ≤ N) (i P cs : Int) (fuel : Nat) : ∀ first : Nat,
+    Src.C16.saturation_calls_loop1 i P cs N T ns (mx : Int) fuel (first : Int)
+      = (scheduleFrom ns N T mx fuel first).map ev := by
+  induction fuel with
+  | zero => intro first; simp [Src.C16.saturation_calls_loop1, scheduleFrom]
+  | succ n ih =>
+    intro first
+    unfold Src.C16.saturation_calls_loop1 scheduleFrom
+    have hlast : min ((N : Int) + (first : Int)) (ns : Int) = ((min (N + first) ns : Nat) : Int) := by omega
+    have hstep : (first : Int) + ((N : Int) - (T : Int) * 2) = ((first + (N - 2 * T) : Nat) : Int) := by omega
+    simp only [hlast, hstep]
+    by_cases h : min (N + first) ns ≥ mx
+    · have h' : ((min (N + first) ns : Nat) : Int) ≥ (mx : Int) := by omega
+      simp [h, h', ev]
+    · have h' : ¬ ((min (N + first) ns : Nat) : Int) ≥ (mx : Int) := by omega
+      have ih' := ih (first + (N - 2 * T))
+      rw [Int.natCast_add] at ih'
+      simp [h, h', ev, ih']
+
+/-- **Every worker**: the `saturation` calls of `my_function(i, P)` are made on the batches `workerWindows ns N T P i`
+(start batch `⌈i · CHUNK / N⌉`, stride `N − 2T`, `last_s` clipped at `ns`, stop at `max_s`), in that order. -/
+theorem saturation_calls_eq (ns N T P i : Nat) (hN : 0 < N) (hT : 2 * T ≤ N) (fuel : Nat) :
+    Src.C16.saturation_calls (i : Int) (P : Int) ((ns / P : Nat) : Int) N T ns fuel
+      = (workerWindows ns N T P i fuel).map ev := by
+  unfold Src.C16.saturation_calls workerWindows
+  have hb : pyCeilDiv ((i : Int) * ((ns / P : Nat) : Int)) (N : Int) = (((i * (ns / P) + N - 1) / N : Nat) : Int) := by
+    have := ceilDiv_nat (i * (ns / P)) N hN
+    rw [← this]; push_cast; rfl
+  have hfirst : ((N : Int) - (T : Int) * 2) * (((i * (ns / P) + N - 1) / N : Nat) : Int)
+      = (((N - 2 * T) * ((i * (ns / P) + N - 1) / N) : Nat) : Int) := by
+    have : ((N - 2 * T : Nat) : Int) = (N : Int) - (T : Int) * 2 := by omega
+    push_cast; rw [this]
+  have hmax : (if (i : Int) = (P : Int) - 1 then (ns : Int) else ((i : Int) + 1) * ((ns / P : Nat) : Int))
+      = ((if i + 1 = P then ns else (i + 1) * (ns / P) : Nat) : Int) := by
+    by_cases h : i + 1 = P
+    · have : (i : Int) = (P : Int) - 1 := by omega
+      simp [h, this]
+    · have : ¬ (i : Int) = (P : Int) - 1 := by omega
+      simp [h, this]
+  simp only [hb, hfirst, hmax]
+  exact loop_eq ns N T _ hT _ _ _ fuel _
+
+/-- one worker (`nprocesses = 1`): the calls are made on `schedule ns N T`, the batches of `destripe_batched_eq_whole` -/
+theorem single_worker_calls_eq (ns N T : Nat) (hN : 0 < N) (hT : 2 * T ≤ N) :
+    Src.C16.saturation_calls 0 1 (ns : Int) N T ns (ns + 1) = (schedule ns N T).map ev := by
+  have := saturation_calls_eq ns N T 1 0 hN hT (ns + 1)
+  simpa [schedule] using this
+
+/-- `CHUNK_SIZE = int(sr.ns / nprocesses)` -/
+theorem chunk_size_eq (ns P : Nat) : Src.C16.destripe_chunk_size ns P = ((ns / P : Nat) : Int) := by
+  unfold Src.C16.destripe_chunk_size
+  rw [Int.tdiv_eq_ediv_of_nonneg (by omega)]; rfl
 
 /-- `Reader.range_volts` is `sample2volts * maxint` (pointwise; both read as exact numbers). -/
 theorem range_volts_eq (s2v maxint : Int) : Src.C16.range_volts s2v maxint = rangeVolts s2v maxint := by
